@@ -25,6 +25,7 @@ type Job struct {
 	Kind     string // "sched" (default) or "direct" (Run does its own enumeration)
 	Run      func(tier string, budget int) *DirectReport
 	NoMapOrd bool // do not explore alternative map iteration orders
+	DumpOutcomes bool // the report lists every distinct outcome record (C17: the conformance leg matches real runs against them)
 	Shards   int  // >1: the job's variant list is split round-robin over this many independent jobs (run in parallel by the driver)
 	Shard    int  // which shard this job is (set by Register)
 }
